@@ -26,7 +26,7 @@ def faults_enabled(i):
 
 class RunResult(object):
     __slots__ = ('i', 'seed', 'ops', 'digest', 'violation', 'stats', 'steps', 'signature',
-                 'nontrivial', 'profile', 'states', 'trigrams', 'outcomes')
+                 'nontrivial', 'profile', 'states', 'trigrams', 'outcomes', 'harness_error')
 
 
 def summarise(prop, w, steps):
@@ -101,6 +101,7 @@ def run_one(prop, verif_seed, i, keep_ops=False, max_steps=None, banned=(), tier
     ops = []
     steps = []
     n = prof.steps if max_steps is None else min(prof.steps, max_steps)
+    herr = None
     try:
         for _ in range(n):
             op = g.next_op()
@@ -108,12 +109,18 @@ def run_one(prop, verif_seed, i, keep_ops=False, max_steps=None, banned=(), tier
             steps.append(w.execute(op))
             if w.halt:
                 break
+    except Exception:
+        # a fault of the simulator itself: this run is discarded (never judged, never a pass
+        # of its own); the batch reports how many there were and fails if they are not rare
+        import traceback
+        herr = traceback.format_exc()
     finally:
         w.reset_globals()
     r = RunResult()
     r.i, r.seed = i, seed
+    r.harness_error = herr
     r.digest = digest_of(w)
-    r.violation = w.violations[0] if w.violations else None
+    r.violation = (w.violations[0] if w.violations else None) if herr is None else None
     r.ops = ops if (keep_ops or r.violation is not None) else None
     r.stats = w.stats
     r.steps = w.seq
